@@ -2,6 +2,7 @@
 
 import ast
 
+from ..absint import NONE, NOTNONE, TOP, DefaultDomain, Interp, State, val
 from ..astutil import FUNC_TYPES, attr_chain, dotted, norm, walk_shallow
 from ..cfg import live_nodes, node_calls
 from ..flow import explore
@@ -72,6 +73,131 @@ def counter_exploration(ctx, func, is_delivery):
     exp = explore(cfg, 0, transfer)
     ctx.stats["states"] += exp.size
     return cfg, exp, hit
+
+
+class _TbtDomain(DefaultDomain):
+    """startTest / add<Outcome> / stopTest of TestByTestResult with the clock abstracted to the phase in
+    which it is read: _now() -> ("time", phase)."""
+
+    def __init__(self, classes):
+        self.classes = classes
+
+    def call(self, interp, call, st, fr):
+        d = dotted(call.func)
+        ch = attr_chain(call.func)
+        if d == "self._now":
+            return [val(("time", st.get("phase", "?")), st)]
+        if d == "self._on_test":
+            out = []
+            exprs = list(call.args) + [k.value for k in call.keywords]
+            for r in interp.eval_list(exprs, st, fr):
+                if r.kind == "exc":
+                    out.append(r)
+                    continue
+                kw = tuple(sorted((k.arg or "**", v) for k, v in zip(call.keywords, r.value[len(call.args):])))
+                pos = tuple(r.value[:len(call.args)])
+                out.append(val(NONE, r.state.set("ev.cb", r.state.get("ev.cb", ()) + ((pos, kw),))))
+            return out
+        if ch and ch[0] == "super()":
+            out = []
+            for r in interp.eval_list(list(call.args) + [k.value for k in call.keywords], st, fr):
+                out.append(r if r.kind == "exc" else val(NONE, r.state))
+            return out
+        if d == "set" and len(call.args) == 1:
+            return interp.eval(call.args[0], st, fr)
+        if ch and ch[0] == "self" and len(ch) == 2 and fr.receiver is not None:
+            owner, f = self.classes.resolve_method(fr.receiver, ch[1])
+            if isinstance(f, FUNC_TYPES) and owner is not None and not owner.external and owner.name == "TestByTestResult":
+                params = [p_.arg for p_ in f.args.args][1:]
+                out = []
+                for r in interp.eval_list(list(call.args), st, fr):
+                    if r.kind == "exc":
+                        out.append(r)
+                        continue
+                    argv = {params[i]: v for i, v in enumerate(r.value) if i < len(params)}
+                    s2 = r.state
+                    for k in call.keywords:
+                        if k.arg:
+                            for rk in interp.eval(k.value, s2, fr):
+                                if rk.kind == "val":
+                                    argv[k.arg] = rk.value
+                    out.extend(interp.inline(f, argv, s2, fr, receiver=fr.receiver))
+                return out
+        out = []
+        for r in interp.eval_list([a for a in call.args if not isinstance(a, ast.Starred)] + [k.value for k in call.keywords], st, fr):
+            out.append(r if r.kind == "exc" else val(NOTNONE, r.state))
+        return out
+
+    def load_attr(self, chain, st, fr):
+        if chain == ["self", "current_tags"]:
+            return ("tags-at", st.get("phase", "?"))
+        return None
+
+
+def check_tbt_protocol(ctx, tbt):
+    """Abstract run of startTest; add<Outcome>(details given / not given); stopTest: the callback gets this test,
+    the documented status word, the clock as read in startTest and in stopTest, and the details."""
+    dom = _TbtDomain(ctx.classes)
+
+    def go(name, argv, st, phase):
+        owner, f = ctx.classes.resolve_method(tbt, name)
+        if not isinstance(f, FUNC_TYPES) or owner is not tbt:
+            raise AnalysisError(f"anchor vanished: TestByTestResult.{name}")
+        it = Interp(dom, max_depth=5)
+        res = it.analyze(f, argv, st.set("phase", phase), receiver=tbt, name=name)
+        ctx.stats["states"] += it.steps
+        for fn in it.functions:
+            ctx.analysed(fn)
+        return [State([(k, v) for k, v in r.state.items if k.startswith("self.") or k.startswith("ev.")]) for r in res if r.kind == "val"]
+
+    TEST = ("the-test",)
+    for m, word in TBT_STATUS.items():
+        f = tbt.methods.get(m)
+        if f is None:
+            raise AnalysisError(f"anchor vanished: TestByTestResult.{m}")
+        params = [p_.arg for p_ in f.args.args][1:]
+        for given in (True, False):
+            argv = {"test": TEST}
+            if "details" in params:
+                argv["details"] = ("the-details",) if given else NONE
+            if "err" in params:
+                argv["err"] = NONE if given else ("the-exc-info",)
+            if "reason" in params:
+                argv["reason"] = NONE if given else ("the-reason",)
+            finals = []
+            for s1 in go("startTest", {"test": TEST}, State(), "start"):
+                for s2 in go(m, argv, s1, "outcome"):
+                    finals.extend(go("stopTest", {"test": TEST}, s2, "stop"))
+            problems = []
+            if not finals:
+                problems.append("no path returns normally")
+            for sf in finals:
+                cbs = sf.get("ev.cb", ())
+                if len(cbs) != 1:
+                    problems.append(f"the callback runs {len(cbs)} times")
+                    continue
+                pos, kw = cbs[0]
+                kwd = dict(kw)
+                if pos or set(kwd) != {"test", "status", "start_time", "stop_time", "tags", "details"}:
+                    problems.append(f"callback arguments are {sorted(kwd)} (+{len(pos)} positional)")
+                    continue
+                if kwd["test"] != TEST:
+                    problems.append("the callback does not get the test")
+                if kwd["status"] != ("const", word):
+                    problems.append(f"status is {kwd['status']!r}, documented {word!r}")
+                if kwd["start_time"] != ("time", "start"):
+                    problems.append(f"start_time is the clock as read during {kwd['start_time'][1] if isinstance(kwd['start_time'], tuple) and len(kwd['start_time']) > 1 else kwd['start_time']!r}, not at startTest")
+                if kwd["stop_time"] != ("time", "stop"):
+                    problems.append(f"stop_time is the clock as read during {kwd['stop_time'][1] if isinstance(kwd['stop_time'], tuple) and len(kwd['stop_time']) > 1 else kwd['stop_time']!r}, not at stopTest "
+                                    "(a time() call between the outcome and stopTest is lost)")
+                if kwd["tags"] != ("tags-at", "stop"):
+                    problems.append("tags are not the current tags at stopTest")
+                if given and kwd["details"] != ("the-details",):
+                    problems.append(f"details handed in are replaced by {kwd['details']!r}")
+                if not given and m not in ("addSuccess", "addUnexpectedSuccess") and kwd["details"] in (NONE, TOP):
+                    problems.append("no details are synthesised from err / reason")
+            ctx.check("R-TBT-CALLBACK", f"startTest; {m}({'details=D' if given else 'err / reason'}); stopTest -> one callback: status {word!r}, start/stop clock, tags, details", f,
+                      not problems, "; ".join(sorted(set(problems))), examined=len(finals), construct=f"{REAL}:TestByTestResult.{m}::protocol details={'given' if given else 'absent'}")
 
 
 def run(ctx):
@@ -380,38 +506,17 @@ def run(ctx):
     counts = exp.states_at(cfg.exit_return)
     ctx.check("R-TBT-CALLBACK", "exactly one callback per stopTest", st, counts == {1}, f"callback count on returning paths {sorted(counts)}", examined=exp.size,
               construct=f"{REAL}:TestByTestResult.stopTest::once")
-    want = {"test": "test", "status": "self._status", "start_time": "self._start_time", "stop_time": "self._stop_time", "details": "self._details"}
+    live = live_nodes(cfg)
     for n in hit:
         for c in node_calls(cfg.nodes[n]):
             if dotted(c.func) == "self._on_test":
                 kws = {k.arg: k.value for k in c.keywords}
-                ok = all(dotted(kws.get(k)) == v for k, v in want.items()) and "tags" in kws and not c.args and set(kws) == set(want) | {"tags"}
-                ctx.check("R-TBT-CALLBACK", "callback carries test, status, start/stop time, tags, details", c, ok,
-                          f"callback keywords are { {k: norm(v) for k, v in kws.items()} }", construct=f"{REAL}:TestByTestResult.stopTest::fields")
                 tags_var = dotted(kws.get("tags"))
-                live = live_nodes(cfg)
                 cap = [x.id for x in cfg.nodes if x.id in live and x.kind == "stmt" and isinstance(x.ast, ast.Assign) and dotted(x.ast.targets[0]) == tags_var and "self.current_tags" in norm(x.ast.value)]
                 sup = nodes_calling(cfg, lambda cc: dotted(cc.func) == "super().stopTest", live)
                 ok = bool(cap) and bool(sup) and cfg.dominated_by(sup[0], set(cap)) and not (set(cfg.reach(cfg.after(sup[0]))) & set(cap))
                 ctx.check("R-TBT-CALLBACK", "tags captured before the tag context is popped", st, ok,
                           "the tags handed to the callback are read after super().stopTest(): the test-local tags are already gone",
                           construct=f"{REAL}:TestByTestResult.stopTest::tags-before-pop")
-                stop_t = [x.id for x in cfg.nodes if x.id in live and x.kind == "stmt" and isinstance(x.ast, ast.Assign) and dotted(x.ast.targets[0]) == "self._stop_time" and "self._now()" in norm(x.ast.value)]
-                ctx.check("R-TBT-CALLBACK", "stop time taken at stopTest", st, bool(stop_t) and cfg.dominated_by(n, set(stop_t)), "stop time not recorded before the callback",
-                          construct=f"{REAL}:TestByTestResult.stopTest::stop-time")
-    stt = own_method(ctx, REAL, "TestByTestResult", "startTest")
-    ok = any(isinstance(n, ast.Assign) and dotted(n.targets[0]) == "self._start_time" and "self._now()" in norm(n.value) for n in walk_shallow(stt, include_self=False))
-    ctx.check("R-TBT-CALLBACK", "start time taken at startTest", stt, ok, "start time not recorded at startTest", construct=f"{REAL}:TestByTestResult.startTest::start-time")
-    for m, word in TBT_STATUS.items():
-        f = tbt.methods.get(m)
-        if f is None:
-            raise AnalysisError(f"anchor vanished: TestByTestResult.{m}")
-        words = [str_const(n.value) for n in walk_shallow(f, include_self=False) if isinstance(n, ast.Assign) and dotted(n.targets[0]) == "self._status"]
-        dets = [n for n in walk_shallow(f, include_self=False) if isinstance(n, ast.Assign) and dotted(n.targets[0]) == "self._details"]
-        g = cfg_of(ctx, f)
-        lv = live_nodes(g)
-        dn = [x.id for x in g.nodes if x.id in lv and x.kind == "stmt" and x.ast in dets]
-        all_paths = g.escape_path([g.entry], set(dn), targets=[g.exit_return]) is None
-        ctx.check("R-TBT-CALLBACK", f"{m} records status {word!r} and the details", f, words == [word] and bool(dets) and all_paths,
-                  f"{m} sets status {words} (documented: {word!r}) / details on all paths: {all_paths}", construct=f"{REAL}:TestByTestResult.{m}::status")
+    check_tbt_protocol(ctx, tbt)
     ctx.assume("a TypeError raised by the first (details=) attempt is the target's signature rejection, not an error after partial acceptance")
